@@ -33,6 +33,9 @@ def lumOfRows (rows : List (List Bool)) : Array Nat := (rows.flatten.map lumOfBi
 /-- the luminance array of a rendered BitMatrix -/
 def lumOfImage (img : Render.Image) : Array Nat := lumOfRows img.rows
 
+/-- a rendered BitMatrix handed DIRECTLY to the locating code (no binariser in between) -/
+def bitImage (img : Render.Image) : Img := { w := img.w, h := img.h, pix := img.px }
+
 /-- the black matrix (`w x h`, the binariser's `Set` calls replayed by `Binarizer.render`) as the bit image
     the locating code sees; outside `[0,w) × [0,h)` the pixel function is false (never consulted: `Get` is guarded) -/
 def blackImg (w h : Nat) (sets : List (Nat × Nat)) : Img :=
